@@ -1,11 +1,13 @@
 # /verif top-level: build the Coq development (proofs + extraction) and the model driver.
-.PHONY: setup coq driver clean
+.PHONY: setup coq clean
 JOBS ?= 12
-setup: coq driver
+setup: driver/modelrun
 coq:
 	cd coq && coq_makefile -f _CoqProject -o Makefile.coq >/dev/null && timeout 3000 $(MAKE) -f Makefile.coq -j$(JOBS)
-driver: coq
-	cd driver && ocamlfind ocamlopt -O2 -w -a model.mli model.ml main.ml -o modelrun
+driver/model.ml: coq
+driver/modelrun: coq driver/main.ml driver/model.ml
+	@if [ ! -x driver/modelrun ] || [ driver/model.ml -nt driver/modelrun ] || [ driver/main.ml -nt driver/modelrun ]; then \
+	  cd driver && ocamlfind ocamlopt -O2 -w -a model.mli model.ml main.ml -o modelrun; fi
 clean:
 	cd coq && [ -f Makefile.coq ] && $(MAKE) -f Makefile.coq clean || true
 	rm -f driver/model.ml driver/model.mli driver/*.cm* driver/*.o driver/modelrun
